@@ -43,6 +43,20 @@ RULE = ('legal designs (C08 generator); exactly one injected defect out of 36 ki
         'exhaustive tables; each under K statement orders with side flips; case = (design, order); non-trivial = design has a defect or at least two '
         'user nets; distinct = canonical JSON')
 
+# ---- begin: translator-based tie of the slice-overlap test (tools/py2lean_overlap.py regenerates Gen/OverlapGen.lean from
+# pymtl3/dsl/Connectable.py before the build; Props/C09Gen.lean proves generated `_overlap` = `Nets.overlap` of the model)
+MODULE = [MODULE, 'PymtlVerif.Props.C09Gen']
+THEOREMS = THEOREMS + ['PV.C09Gen.gen_overlap_eq_nets']
+THEOREM_MODULE = {'PV.C09Gen.gen_overlap_eq_nets': 'PymtlVerif.Props.C09Gen'}
+TRUSTED = TRUSTED + ['tools/py2lean_overlap.py (translator, same core and trusted subset as tools/py2lean_bits.py): `_overlap` of Connectable.py is regenerated as Gen/OverlapGen.lean on every run and proved equal to the model\'s Nets.overlap on (lo, hi) pairs (no hypothesis)']
+def pregen(ck):
+  import importlib.util, os
+  path = os.path.join(leanio.VERIF, 'tools', 'py2lean_overlap.py')
+  spec = importlib.util.spec_from_file_location('py2lean_overlap', path)
+  mod = importlib.util.module_from_spec(spec); spec.loader.exec_module(mod)
+  return mod.pregen()
+# ---- end: translator-based tie
+
 CLASSES = {'UpdateBlockWriteError', 'UpdateFFBlockWriteError', 'UpdateFFNonTopLevelSignalError', 'InvalidConnectionError',
            'MultiWriterError', 'NoWriterError', 'SignalTypeError'}
 
